@@ -5,6 +5,7 @@ from fractions import Fraction as F
 import re
 import common, lpdump
 
+OBJLOG = []            # every value SolverWrapper.get_objective_value() returned (the code's own reads), in order
 HOOK = [None]          # callable(solver_wrapper) run right before the original optimize()
 STATUS = [None]        # callable(solver_wrapper, real_status) -> status, wraps get_model_status
 _installed = False
@@ -33,6 +34,13 @@ def install():
             return STATUS[0](self, real)
         return real
     sw.SolverWrapper.get_model_status = get_model_status
+    orig_obj = sw.SolverWrapper.get_objective_value
+
+    def get_objective_value(self, *a, **k):
+        v = orig_obj(self, *a, **k)
+        OBJLOG.append(v)
+        return v
+    sw.SolverWrapper.get_objective_value = get_objective_value
     _installed = True
 
 
